@@ -621,7 +621,7 @@ theorem setNodeMarkup_spec (S : Schema) (st st' : PSt) (pos : Nat) (ty : Option 
             obtain ⟨a', rfl⟩ := createNode_elem S _ attrs _ newNode hty hcreate
             have hget : L[pos]? = some (Tok.op t a m) := by
               show (ftoks st.tr.doc.kids)[pos]? = _
-              rw [hL, List.append_assoc, List.getElem?_append_right (by simp; omega)]
+              rw [hL, List.append_assoc, List.getElem?_append_right (by simp <;> omega)]
               simp only [Node.size_elem] at hlen
               simp [Nat.min_eq_left (by omega : pos ≤ (ftoks st.tr.doc.kids).length)]
             refine ⟨hget, ?_⟩
